@@ -6,6 +6,7 @@ require (
 	github.com/anishathalye/porcupine v1.3.0
 	github.com/grafana/carbon-relay-ng v0.0.0
 	github.com/metrics20/go-metrics20 v0.0.0-20180821133656-717ed3a27bf9
+	github.com/sirupsen/logrus v1.1.2-0.20181020050904-08e90462da34
 )
 
 require (
@@ -38,7 +39,6 @@ require (
 	github.com/pierrec/lz4 v0.0.0-20190327172049-315a67e90e41 // indirect
 	github.com/prometheus/procfs v0.0.0-20190425082905-87a4384529e0 // indirect
 	github.com/rcrowley/go-metrics v0.0.0-20181016184325-3113b8401b8a // indirect
-	github.com/sirupsen/logrus v1.1.2-0.20181020050904-08e90462da34 // indirect
 	github.com/tinylib/msgp v1.1.0 // indirect
 	github.com/xdg/scram v0.0.0-20180814205039-7eeb5667e42c // indirect
 	github.com/xdg/stringprep v1.0.0 // indirect
